@@ -19,6 +19,9 @@ def plan(prop, tier):
             J.append((fam, "pre1", ["scenarios=%d" % ((8 if q else 40) // (2 if big else 1)), "threads=2", "opsper=%d" % (1 if big else 2)]))
             if not big:
                 J.append((fam, "pct", ["scenarios=%d" % (12 if q else 60), "runs=%d" % (10 if q else 30), "threads=3", "opsper=2"]))
+        if not q:   # free-running real threads on the same scenarios (hardware interleavings)
+            for fam in FAMS[:6]:
+                J.append((fam, "free", ["scenarios=300", "runs=40", "threads=3", "opsper=2"]))
     elif prop in ("C04", "C06"):
         for fam in FAMS:
             big = fam == "three"
